@@ -51,7 +51,7 @@ RULE = ("Hypothesis-generated basin reference graphs over 1..6 files (shape x ru
         "graph reachable from the entry file contains a reference cycle of length >= 2 "
         "or a file-type basin defined in a file that is reached through a network "
         "format; distinct = sha1 of the canonical JSON spec")
-BUDGET = {"quick": 400, "thorough": 8000}
+BUDGET = {"quick": 600, "thorough": 12000}
 ESSENTIAL = ["graph:cycle>=2", "graph:selfloop", "graph:remote->file",
              "id:equal", "id:prefix-mapped", "id:prefix-unmapped", "id:unrelated",
              "id:referrer-none", "id:basin-none", "loc:relative", "loc:dangling",
@@ -202,9 +202,14 @@ def st_spec(draw):
     pairs = _shape_edges(shape, k, draw)
     for _ in range(draw(st.sampled_from([0, 0, 0, 1, 1, 2]))):
         pairs.append((draw(st.integers(0, k - 1)), draw(st.integers(0, k - 1))))
-    scen = draw(st.sampled_from(["allbase", "mostly", "mostly", "random"]))
+    scen = draw(st.sampled_from(["allbase", "mostly", "mostly", "export", "export",
+                                 "random"]))
     if scen == "allbase":
         rids = ["base"] * k
+    elif scen == "export":
+        # chain of exports: every export appends to the identifier of its source
+        top = draw(st.integers(0, min(2, k - 1)))
+        rids = [["base", "ext", "ext2"][max(0, top - i)] for i in range(k)]
     elif scen == "mostly":
         rids = [draw(st.sampled_from(["base"] * 24 + RIDK[12:])) for _ in range(k)]
     else:
@@ -311,7 +316,6 @@ class Model:
         self.walks = 0
         self.kf_mapped_file = False
         self.kf_unmapped = False
-        self.last_kf = False
         self.cls = collections.Counter()
         if mode == "local":
             self.local_bound[0] += 1
@@ -375,10 +379,6 @@ class Model:
                     v = self._verdict(r, RID[self.files[t]["rid"]], mapped, True,
                                       mode == "local")
                     if v == "no":
-                        if self.last_kf:
-                            # dclab is known to accept this candidate (known
-                            # finding) and then never tries the later ones
-                            prefix_certain = False
                         continue
                     st_ = status if (v == "yes" and prefix_certain) else min(status, 1)
                     self._claim(e, fset, st_)
@@ -407,7 +407,6 @@ class Model:
 
     def _verdict(self, r, b, mapped, is_file, local):
         v = verdict(r, b, mapped)
-        self.last_kf = v == "kf" and not mapped
         if v == "kf":
             if mapped:
                 if is_file and local:
@@ -650,25 +649,19 @@ def _classify(spec, mode, fnum, arr, extra=()):
 
 def _sig(why, obs, mode):
     if why == "identifier/basin-has-none/unmapped":
-        return why            # one root cause (known finding), however it is observed
+        return why            # one root cause (repaired in /repo d031589), however observed
     return f"{why}/{obs}/{mode}"
 
 
 def _run_mode(spec, rec, mode, M, paths, real, srv, gcls):
     gname = _gname(gcls)
-    # a mapped file basin without identifier makes basins_retrieve raise on every
-    # access (known finding), so the datasets are re-opened per access: the exact
-    # bound does not apply there, the runaway cut stays
-    tainted = M.kf_mapped_file
-    # basins without identifier that dclab is known to accept: the files below them
-    # are opened, too -> bounds of the model that accepts them, known signature
-    Mk = Model(spec, mode, ("kf",)) if M.kf_unmapped else M
-    _OPENS.reset(Mk.open_bound * (3 * NFEAT + 5 if tainted else 1))
+    _OPENS.reset(M.open_bound)
     _OPENS.active = True
     kf_hit = [False]
 
     def guarded(fn, what):
-        """-> (ok, value); handles runaway / recursion / known TypeError"""
+        """-> (ok, value); handles runaway / recursion / the TypeError of a mapped
+        basin without identifier (repaired in /repo d031589; narrow signature)"""
         try:
             return True, fn()
         except _Runaway:
@@ -718,12 +711,10 @@ def _run_mode(spec, rec, mode, M, paths, real, srv, gcls):
                 ds.close()
             except _Runaway:
                 pass
-    if tainted:
-        rec.skip("availability-not-asserted:mapped-basin-without-identifier")
 
     # ---- termination
     rec.check(not _OPENS.tripped, f"termination/open-count/{gname}",
-              lambda: f"more than {Mk.open_bound} datasets were constructed while reading "
+              lambda: f"more than {M.open_bound} datasets were constructed while reading "
                       f"a graph of {len(spec['files'])} files (entry opened as {mode})")
     # ---- isolation by opened local files
     for rp, cnt in sorted(_OPENS.local.items()):
@@ -731,8 +722,9 @@ def _run_mode(spec, rec, mode, M, paths, real, srv, gcls):
         if idx is None:
             rec.fail(f"isolation/local-open/unknown-path/{mode}", f"opened {rp}")
             continue
-        allowed = Mk.local_bound.get(idx, 0)
-        if allowed and not M.local_bound.get(idx, 0):
+        allowed = M.local_bound.get(idx, 0)
+        if allowed == 0 and M.kf_unmapped and Model(
+                spec, mode, ("kf",)).local_bound.get(idx, 0):
             rec.fail("identifier/basin-has-none/unmapped",
                      f"file f{idx} opened below a basin without identifier")
         elif allowed == 0:
@@ -742,7 +734,7 @@ def _run_mode(spec, rec, mode, M, paths, real, srv, gcls):
                      f"no permitted path of file-type basins leads to it (entry opened "
                      f"as {mode})")
         else:
-            rec.check(cnt <= allowed or tainted,
+            rec.check(cnt <= allowed,
                       f"termination/local-open-count/{gname}",
                       lambda: f"file f{idx} opened {cnt}x, graph admits {allowed}")
     if mode != "local":
@@ -769,7 +761,7 @@ def _run_mode(spec, rec, mode, M, paths, real, srv, gcls):
                              f"{fname(fnum)} = {list(arr)} (entry opened as {mode}); "
                              f"admissible: {[list(a) for a in sorted(may)][:4]}")
             else:
-                if must and not tainted:
+                if must:
                     rec.fail(f"availability/missing/{pathcls}/{mode}",
                              f"{fname(fnum)} is provided by an accepted basin "
                              f"(shortest path: {via}) but reading raises KeyError")
@@ -778,7 +770,7 @@ def _run_mode(spec, rec, mode, M, paths, real, srv, gcls):
         elif not kf_hit[0]:
             rec.skip("read-aborted")
         if ok1:
-            if must and not tainted:
+            if must:
                 rec.check(bool(cont), f"availability/not-contained/{pathcls}/{mode}",
                           lambda: f"{fname(fnum)} in ds is False although it is provided "
                                   f"through {via}")
@@ -808,13 +800,12 @@ def _run_mode(spec, rec, mode, M, paths, real, srv, gcls):
             rec.fail(_sig(why, "features_basin", mode),
                      f"{fname(fnum)} is listed in features_basin although no permitted "
                      f"basin offers it")
-        if not tainted:
-            for fnum in sorted(M.must_basin - ls):
-                depth, via = M.must_info[fnum]
-                rec.fail(f"availability/not-listed/"
-                         f"{'direct' if depth == 1 else 'nested'}:{via.split('>')[-1]}/{mode}",
-                         f"{fname(fnum)} missing in features_basin {sorted(listing)}; "
-                         f"provided through {via}")
+        for fnum in sorted(M.must_basin - ls):
+            depth, via = M.must_info[fnum]
+            rec.fail(f"availability/not-listed/"
+                     f"{'direct' if depth == 1 else 'nested'}:{via.split('>')[-1]}/{mode}",
+                     f"{fname(fnum)} missing in features_basin {sorted(listing)}; "
+                     f"provided through {via}")
         rec.checks += 1
         if ok_b and listing2 is not None:
             rec.check(sorted(listing) == sorted(listing2), f"listing/unstable/{mode}",
